@@ -2,15 +2,22 @@ package main
 
 import (
 	"bytes"
+	"errors"
 	"fmt"
 	"net"
+	"runtime"
+	"sort"
 	"strconv"
+	"strings"
+	"sync"
+	"sync/atomic"
 	"time"
 
 	"go.dedis.ch/kyber/v3"
 	"go.dedis.ch/kyber/v3/group/mod"
 	"go.dedis.ch/kyber/v3/suites"
 	"go.dedis.ch/onet/v3/network"
+	"onetverif/harness/fix"
 	"onetverif/harness/h"
 )
 
@@ -20,6 +27,15 @@ import (
 //       a message with one kyber point/scalar of the value suite is marshalled and then unmarshalled
 //       with the connection's suite (directly, or sent and received over a pair of TCPConns on a
 //       pipe): "same" (same dynamic type, same bytes) or "differs"
+
+//   wsend <buffers> <write oracle> <chunks>
+//       the real sendRaw writes the buffers one after the other through a transport whose Write
+//       calls behave as the oracle says (a<k>: accepted - a partial write of k bytes on the body,
+//       the header in two pieces; f<k>: fails with a time-out after k bytes); the sender goes on
+//       whatever the results are; the re-chunking writer cuts the stream, the real receiveRaw reads
+//   csend <buffers of thread 0>;<buffers of thread 1>;...
+//       the threads call the real TCPConn.Send concurrently on one connection whose transport takes
+//       every write in two steps
 
 // c03Iface carries interface-typed fields: which dynamic type instantiates them on the receiving
 // side depends on the tag registry of the encoding library and on the suite of the connection.
@@ -200,6 +216,311 @@ func (st *c03state) iface(via, connSuite, valSuite, kind string, n int, seed []b
 	return obs
 }
 
+// ---------------------------------------------------------------------------------------------
+// the sending side
+
+type c03wact struct {
+	fail bool
+	k    int
+}
+
+func c03oracle(s string) ([]c03wact, bool) {
+	if s == "-" {
+		return nil, true
+	}
+	var out []c03wact
+	for _, t := range strings.Split(s, ",") {
+		if len(t) < 2 || (t[0] != 'a' && t[0] != 'f') {
+			return nil, false
+		}
+		k, err := strconv.Atoi(t[1:])
+		if err != nil || k < 0 {
+			return nil, false
+		}
+		out = append(out, c03wact{fail: t[0] == 'f', k: k})
+	}
+	return out, true
+}
+
+type c03timeoutErr struct{}
+
+func (c03timeoutErr) Error() string   { return "write: i/o timeout" }
+func (c03timeoutErr) Timeout() bool   { return true }
+func (c03timeoutErr) Temporary() bool { return true }
+
+// c03faulty is the scripted transport under the sending TCPConn.
+type c03faulty struct {
+	net.Conn // the re-chunking writer
+	acts     []c03wact
+	hdr      bool // the next Write is the length prefix of a frame
+	closed   bool
+}
+
+func (f *c03faulty) Write(p []byte) (int, error) {
+	if f.closed {
+		return 0, errors.New("write on a closed connection")
+	}
+	hdr := f.hdr
+	f.hdr = false
+	if len(f.acts) == 0 {
+		return f.Conn.Write(p)
+	}
+	a := f.acts[0]
+	f.acts = f.acts[1:]
+	n := a.k
+	if n > len(p) {
+		n = len(p)
+	}
+	switch {
+	case a.fail:
+		if _, err := f.Conn.Write(p[:n]); err != nil {
+			return 0, err
+		}
+		return n, c03timeoutErr{}
+	case hdr:
+		// nobody looks at the count of the header write: a well-behaved transport takes it all
+		if _, err := f.Conn.Write(p[:n]); err != nil {
+			return 0, err
+		}
+		if _, err := f.Conn.Write(p[n:]); err != nil {
+			return n, err
+		}
+		return len(p), nil
+	default:
+		if n < 1 {
+			n = 1
+		}
+		if _, err := f.Conn.Write(p[:n]); err != nil {
+			return 0, err
+		}
+		return n, nil
+	}
+}
+
+func (f *c03faulty) Close() error {
+	if f.closed {
+		return errors.New("already closed")
+	}
+	f.closed = true
+	return f.Conn.Close()
+}
+
+// c03flushClose: a re-chunking writer that lets its buffered bytes out before it closes
+type c03flushClose struct{ *c03chunker }
+
+func (k c03flushClose) Close() error {
+	k.c03chunker.Flush()
+	return k.c03chunker.Conn.Close()
+}
+
+func (st *c03state) wsend(bufs [][]byte, acts []c03wact, chunks []int) string {
+	a, b := net.Pipe()
+	ck := &c03chunker{Conn: a, sizes: append([]int{}, chunks...), stallAt: -1}
+	f := &c03faulty{Conn: c03flushClose{ck}, acts: acts}
+	snd, rcv := network.VerifNewTCPConn(f, fix.Suite), network.VerifNewTCPConn(b, fix.Suite)
+	results := make([]bool, len(bufs))
+	done := make(chan bool, 1)
+	go func() {
+		for i, buf := range bufs {
+			f.hdr = true
+			_, err := snd.VerifSendRaw(buf)
+			results[i] = err == nil
+		}
+		f.Close()
+		done <- true
+	}()
+	var got [][]byte
+	end := ""
+	type res struct {
+		b   []byte
+		err error
+	}
+	for end == "" {
+		ch := make(chan res, 1)
+		go func() {
+			buf, err := rcv.VerifReceiveRaw()
+			ch <- res{buf, err}
+		}()
+		select {
+		case r := <-ch:
+			if r.err != nil {
+				end = c03class(r.err)
+			} else {
+				got = append(got, append([]byte{}, r.b...))
+			}
+		case <-time.After(5 * time.Second):
+			end = "hang"
+			st.cs.Fail("hang", "receiveRaw did not return within 5 s")
+		}
+	}
+	b.Close()
+	a.Close()
+	select {
+	case <-done:
+	case <-time.After(5 * time.Second):
+		st.cs.Fail("hang", "the sender did not return within 5 s")
+		return "hang"
+	}
+	// the property's own oracle: every frame whose send reported success is received intact, in
+	// order; nothing else is received except, at most, the one frame whose write failed at its end
+	rs := ""
+	var oks [][]byte
+	firstFail := -1
+	for i, ok := range results {
+		if ok {
+			rs += "1"
+			oks = append(oks, bufs[i])
+		} else {
+			rs += "0"
+			if firstFail < 0 {
+				firstFail = i
+			}
+		}
+	}
+	okPrefix := len(got) >= len(oks)
+	for i := 0; okPrefix && i < len(oks); i++ {
+		okPrefix = bytes.Equal(got[i], oks[i])
+	}
+	within := st.firstOversize(bufs) == len(bufs)
+	switch {
+	case !within:
+	case !okPrefix:
+		st.cs.Fail("sent-ok-not-delivered", fmt.Sprintf("sendRaw results %s for %s; received %s, end %s: a frame reported written did not arrive intact and in order", rs, c03joinHex(bufs), c03joinHex(got), end))
+	case len(got) > len(oks)+1 || (len(got) == len(oks)+1 && (firstFail < 0 || !bytes.Equal(got[len(oks)], bufs[firstFail]))) || end != "eof":
+		st.cs.Fail("misparsed", fmt.Sprintf("sendRaw results %s for %s; received %s, end %s: the receiver was handed something nobody sent", rs, c03joinHex(bufs), c03joinHex(got), end))
+	}
+	st.tag(fmt.Sprintf("wsend:ok%s:fail%v:%s", c03bucket(len(oks)), firstFail >= 0, end))
+	return rs + " " + c03joinHex(got) + " end:" + end
+}
+
+// c03twoStep takes every Write in two halves and pauses after each half, so that other threads
+// that are (wrongly) writing at the same time get their bytes in between — inside a frame header,
+// between header and body, inside a body.  With one writer at a time it is an ordinary transport.
+type c03twoStep struct {
+	net.Conn
+	mu sync.Mutex
+}
+
+func (t *c03twoStep) part(p []byte) error {
+	t.mu.Lock()
+	_, err := t.Conn.Write(p)
+	t.mu.Unlock()
+	time.Sleep(20 * time.Microsecond)
+	return err
+}
+
+func (t *c03twoStep) Write(p []byte) (int, error) {
+	h := len(p) / 2
+	if h > 0 {
+		if err := t.part(p[:h]); err != nil {
+			return 0, err
+		}
+	}
+	if err := t.part(p[h:]); err != nil {
+		return h, err
+	}
+	return len(p), nil
+}
+
+func (st *c03state) csend(queues [][][]byte) string {
+	a, b := net.Pipe()
+	snd, rcv := network.VerifNewTCPConn(&c03twoStep{Conn: a}, fix.Suite), network.VerifNewTCPConn(b, fix.Suite)
+	vals := make([][]network.Message, len(queues))
+	total := 0
+	for i, q := range queues {
+		for _, buf := range q {
+			v, cl := c03unmarshal(buf)
+			if cl != "ok" {
+				return "bad-op"
+			}
+			vals[i] = append(vals[i], v)
+			total++
+		}
+	}
+	var wg sync.WaitGroup
+	var failed int32
+	start := make(chan bool)
+	for i := range vals {
+		wg.Add(1)
+		go func(q []network.Message) {
+			defer wg.Done()
+			<-start
+			for _, v := range q {
+				if _, err := snd.Send(v); err != nil {
+					atomic.AddInt32(&failed, 1)
+				}
+				runtime.Gosched()
+			}
+		}(vals[i])
+	}
+	close(start)
+	go func() {
+		wg.Wait()
+		a.Close()
+	}()
+	var got [][]byte
+	end := ""
+	type res struct {
+		b   []byte
+		err error
+	}
+	for end == "" {
+		ch := make(chan res, 1)
+		go func() {
+			buf, err := rcv.VerifReceiveRaw()
+			ch <- res{buf, err}
+		}()
+		select {
+		case r := <-ch:
+			if r.err != nil {
+				end = c03class(r.err)
+			} else {
+				got = append(got, append([]byte{}, r.b...))
+			}
+		case <-time.After(5 * time.Second):
+			end = "hang"
+			st.cs.Fail("hang", "receiveRaw did not return within 5 s")
+		}
+	}
+	b.Close()
+	a.Close()
+	// the property's own oracle: every buffer arrives intact exactly once, those of one thread in
+	// that thread's order
+	pos := make([]int, len(queues))
+	bad := ""
+	for _, g := range got {
+		found := false
+		for i, q := range queues {
+			if pos[i] < len(q) && bytes.Equal(q[pos[i]], g) {
+				pos[i]++
+				found = true
+				break
+			}
+		}
+		if !found {
+			bad = h.Hex(g)
+			break
+		}
+	}
+	done := 0
+	for _, p := range pos {
+		done += p
+	}
+	if bad != "" || done != total || end != "eof" || failed > 0 {
+		st.cs.Fail("frames-interleaved", fmt.Sprintf("%d threads sent %d messages concurrently on one connection (%d sends failed): received %s, end %s; first frame that is not the next message of any thread: %s", len(queues), total, failed, c03joinHex(got), end, bad))
+	}
+	hexes := make([]string, len(got))
+	for i, g := range got {
+		hexes[i] = h.Hex(g)
+	}
+	sort.Strings(hexes)
+	st.tag(fmt.Sprintf("csend:t%d:%s:%s", len(queues), c03bucket(len(got)), end))
+	if len(hexes) == 0 {
+		return "- end:" + end
+	}
+	return strings.Join(hexes, ",") + " end:" + end
+}
+
 // r4op routes the operations of this file; ok = false when the tokens are none of them.
 func (st *c03state) r4op(tk []string) (string, bool) {
 	switch {
@@ -210,6 +531,24 @@ func (st *c03state) r4op(tk []string) (string, bool) {
 			return "bad-op", true
 		}
 		return st.iface(tk[2], tk[3], tk[4], tk[5], n, seed), true
+	case len(tk) == 5 && tk[1] == "wsend":
+		bufs, ok1 := c03hexList(tk[2])
+		acts, ok2 := c03oracle(tk[3])
+		ch, ok3 := c03ints(tk[4])
+		if !ok1 || !ok2 || !ok3 {
+			return "bad-op", true
+		}
+		return st.wsend(bufs, acts, ch), true
+	case len(tk) == 3 && tk[1] == "csend":
+		var qs [][][]byte
+		for _, q := range strings.Split(tk[2], ";") {
+			l, ok := c03hexList(q)
+			if !ok {
+				return "bad-op", true
+			}
+			qs = append(qs, l)
+		}
+		return st.csend(qs), true
 	}
 	return "", false
 }
@@ -256,6 +595,57 @@ func c03genR4(g *c03g, emit func(class string, ops ...string)) {
 		"c03 cfg 4096 "+reg+" -",
 		ifaceOp("unm", "P256", "P256", "scalar"),
 		ifaceOp("tcp", "Residue512", "Residue512", "scalar"))
+	// ---- corpus: the witness of the partial-write defect (fixed in /repo): the write of the second
+	// frame fails two bytes into its body, the caller sends a third one
+	emit("corpus-partial-write",
+		"c03 cfg 64 "+reg+" -",
+		"c03 wsend 01,02030405060708090a,0b a4,a1,a4,f2 1,1,3",
+		"c03 wsend 01,02030405060708090a,0b,0c0d a2,a1,f3 -",
+		"c03 wsend 0102030405,0607 a4,a2,a1,f2 2,2")
+	// ---- the sending side: partial and failing writes of every shape, then any segmentation
+	for i := 0; i < c.Pick(500, 8000); i++ {
+		max := []int{1, 8, 64, 300}[r.Intn(4)]
+		ops := []string{fmt.Sprintf("c03 cfg %d %s -", max, reg)}
+		for j := 1 + r.Intn(3); j > 0; j-- {
+			var bufs [][]byte
+			total := 0
+			for k := 1 + r.Intn(5); k > 0; k-- {
+				n := r.Intn(max + 1)
+				if r.Intn(5) == 0 {
+					n = 0
+				}
+				bufs = append(bufs, c03bytes(r, n))
+				total += 4 + n
+			}
+			var acts []string
+			failAt := -1
+			if r.Intn(2) == 0 {
+				failAt = r.Intn(3 * len(bufs))
+			}
+			for k := r.Intn(4 * len(bufs)); k >= 0; k-- {
+				t := fmt.Sprintf("a%d", []int{1, 2, 3, 4, 5, 1 + r.Intn(max+1), 1 << 20}[r.Intn(7)])
+				if len(acts) == failAt {
+					t = fmt.Sprintf("f%d", []int{0, 1, 2, 3, 4, r.Intn(max + 2), 1 << 20}[r.Intn(7)])
+				}
+				acts = append(acts, t)
+			}
+			ops = append(ops, fmt.Sprintf("c03 wsend %s %s %s", c03joinHex(bufs), strings.Join(acts, ","), h.Ints(g.chunks(total))))
+		}
+		emit("wsend", ops...)
+	}
+	// ---- concurrent senders on one connection
+	for i := 0; i < c.Pick(150, 2000); i++ {
+		var qs []string
+		for t := 0; t < 2+r.Intn(4); t++ {
+			var q [][]byte
+			for k := 0; k < 1+r.Intn(6); k++ {
+				b, _ := network.Marshal(&c03Ints{I64: int64(1000*t + k), LS: []string{string(c03bytes(r, r.Intn(40)))}})
+				q = append(q, b)
+			}
+			qs = append(qs, c03joinHex(q))
+		}
+		emit("csend", "c03 cfg 4096 "+reg+" -", "c03 csend "+strings.Join(qs, ";"))
+	}
 	for i := 0; i < c.Pick(120, 1500); i++ {
 		ops := []string{"c03 cfg 4096 " + reg + " -"}
 		for j := 2 + r.Intn(5); j > 0; j-- {
